@@ -403,6 +403,7 @@ func runC16(args []string) int {
 			rep.Fail("harness:reference", "big-integer group law disagrees with gnark-crypto bn254", nil)
 		}
 	}
+	var edCases []string
 	var jobs []*swJob
 	var jobRunner []int
 	add := func(ri int, j *swJob) {
@@ -672,6 +673,14 @@ func runC16(args []string) int {
 		for i, j := range ejobs {
 			desc := c16Desc{Curve: fmt.Sprintf("edwards/%v", id), Op: j.op, Class: j.class, Detail: res[i]}
 			rep.Eval(fmt.Sprintf("ed|%v|%s|%s", id, j.op, j.class), true)
+			if res[i] == "ok" && j.ok && (j.op == "Add" || j.op == "Double") {
+				opn := 0
+				if j.op == "Double" {
+					opn = 1
+				}
+				edCases = append(edCases, fmt.Sprintf("(%s, %s, %s, %d%%nat, (%s, %s), (%s, %s), (%s, %s))", zlit(q), zlit(params.A), zlit(params.D), opn,
+					zlit(j.p[0]), zlit(j.p[1]), zlit(j.q[0]), zlit(j.q[1]), zlit(j.want[0]), zlit(j.want[1])))
+			}
 			rep.Count("ed:" + j.op + ":" + strings.SplitN(res[i], ":", 2)[0])
 			if strings.HasPrefix(res[i], "panic") {
 				rep.Fail("c16:panic:edwards:"+strings.ToLower(j.op), res[i], desc)
@@ -969,6 +978,9 @@ func runC16(args []string) int {
 	}
 	rep.CoqCases = len(wcases)
 	c16EdDSA(rep, rng)
+	writeFile(o.Out, "cases_C16_ed.v", "From Coq Require Import ZArith List Bool.\nFrom GnarkV Require Import Std.EdwardsCases.\nImport ListNotations.\nLocal Open Scope Z_scope.\n"+
+		fmt.Sprintf("Definition edcases : list edcase := %s.\nDefinition mism_edwards := Eval vm_compute in ed_mismatches 0 edcases.\nPrint mism_edwards.\n", coqlistNL(edCases)))
+	rep.CoqCases += len(edCases)
 	rep.Write(o.Out)
 	return 0
 }
